@@ -67,6 +67,7 @@ struct Engine {
 	uint64_t apis = 0;
 	std::vector<int> phase_tasks;
 	std::deque<J> drain_ops;
+	std::vector<size_t> session_wire_begin, session_wire_end;
 	size_t loop_pos = 0;
 
 	explicit Engine(const J &p) : plan(p) {}
